@@ -3,6 +3,7 @@ package checks
 import (
 	"bytes"
 	"fmt"
+	"math"
 	"sync"
 	"sync/atomic"
 	"testing"
@@ -132,6 +133,8 @@ func TestC01(t *testing.T) {
 		}(i, cs)
 	}
 	wg.Wait()
+	// getter level: after the CPU-heavy part (its peers work against real request timeouts)
+	c01Getter(t, run, rng.Split("getter"))
 	run.Require("sample/honest/accepted", 100)
 	run.Require("row/honest/accepted", 20)
 	run.Require("rnd/honest/accepted", 20)
@@ -212,6 +215,52 @@ func (c *c01) samples(r *vkit.RNG, sq, tw *vkit.Square, full bool) {
 					if err == nil {
 						try(fmt.Sprintf("%s/ax%d", o.op, ax2), s)
 					}
+				}
+			}
+			// honest samples of cells related to (r,c) — the whole row and column for small squares, the
+			// diagonal cells of the requested row and column otherwise — declared with every proof axis
+			// value, valid or not (the axis is a signed enum on the wire: negative values arrive intact)
+			{
+				type cell struct {
+					r, c int
+					rel  string
+				}
+				var rel []cell
+				if full && n <= 8 {
+					for k := 0; k < n; k++ {
+						if k != p.c {
+							rel = append(rel, cell{p.r, k, "same-row"})
+						}
+						if k != p.r {
+							rel = append(rel, cell{k, p.c, "same-column"})
+						}
+					}
+				} else {
+					rel = []cell{{p.c, p.c, "diagonal-of-column"}, {p.r, p.r, "diagonal-of-row"}}
+				}
+				for _, o := range rel {
+					if o.r == p.r && o.c == p.c {
+						continue
+					}
+					for _, ax2 := range []rsmt2d.Axis{rsmt2d.Row, rsmt2d.Col} {
+						s, err := acc.SampleForProofAxis(shwap.SampleCoords{Row: o.r, Col: o.c}, ax2)
+						if err != nil {
+							continue
+						}
+						for _, decl := range []struct {
+							name string
+							ax   rsmt2d.Axis
+						}{{"declared-row", rsmt2d.Row}, {"declared-col", rsmt2d.Col}, {"declared-minus1", -1}, {"declared-minus2", -2},
+							{"declared-2", 2}, {"declared-min-int32", math.MinInt32}, {"declared-max-int32", math.MaxInt32}} {
+							s.ProofType = decl.ax
+							try(fmt.Sprintf("pos-%s/proof-ax%d/%s", o.rel, ax2, decl.name), s)
+						}
+					}
+				}
+				for _, ax := range []rsmt2d.Axis{-1, -2, math.MinInt32, math.MaxInt32} {
+					s := honest
+					s.ProofType = ax
+					try(fmt.Sprintf("axis-invalid/%d", ax), s)
 				}
 			}
 			if p.r != p.c {
